@@ -194,8 +194,9 @@ Local Open Scope Z_scope.
     addition, the parallel-plates constructor) and every sample count *)
 
 (** 4a. shape: every generated constructor returns exactly n samples, zero above n/2 (constant
-    and collimator: from n/2 on, where the constant sits below), the factory's start vector is
-    zero - for every n >= 1, odd n included, whatever the sample expressions are *)
+    and collimator: from n/2 on, where the constant sits below; parallel plates - of which only the
+    storing loop is translated, the Airy-function value being a leaf - also at 0), the factory's
+    start vector is zero - for every n >= 1, odd n included, whatever the sample expressions are *)
 Theorem C16_generated_shape :
   forall (K : Fld) (E : Leaves K) (n : Z) (f_rev f_max f0 L s xi b : K) (z : cpx K) (outer inner : K), 1 <= n ->
     (zlen (FreeSpaceCSR_ctor K E n f_rev f_max) = n /\
@@ -207,7 +208,9 @@ Theorem C16_generated_shape :
      forall i, 0 <= i < n / 2 -> nthz cpx0 (ConstImpedance_ctor K E n f_max z) i = z) /\
     (zlen (CollimatorImpedance_ctor K E n f_max outer inner) = n /\
      zero_above (cpx K) cpx0 (CollimatorImpedance_ctor K E n f_max outer inner) (n / 2 - 1)) /\
-    (zlen (Impedance_zeros K E n) = n /\ zero_above (cpx K) cpx0 (Impedance_zeros K E n) (-1)).
+    (zlen (Impedance_zeros K E n) = n /\ zero_above (cpx K) cpx0 (Impedance_zeros K E n) (-1)) /\
+    (zlen (ParallelPlatesCSR_ctor K E n f0 f_max b) = n /\ nthz cpx0 (ParallelPlatesCSR_ctor K E n f0 f_max b) 0 = cpx0 /\
+     zero_above (cpx K) cpx0 (ParallelPlatesCSR_ctor K E n f0 f_max b) (n / 2)).
 Proof. exact gen_shape. Qed.
 Print Assumptions C16_generated_shape.
 
@@ -217,16 +220,18 @@ Print Assumptions C16_generated_shape.
     the constant (Z0/pi ln(outer/inner), 0)), under the non-zero conditions the divisions need *)
 Theorem C16_generated_models :
   forall (K : Fld) (E : Leaves K),
-    (forall n f_rev f_max, f_rev <> f0 -> @fz K (n - 1) <> f0 ->
+    (forall n f_rev f_max, 1 <= n -> f_rev <> f0 -> @fz K (n - 1) <> f0 ->
        FreeSpaceCSR_ctor K E n f_rev f_max = push_loop cpx0 n (sp_fs_sample E n f_rev f_max)) /\
-    (forall n fr f_max L s xi b, fr <> f0 -> @fz K (n - 1) <> f0 -> s <> f0 -> b <> f0 -> l_pi E <> f0 -> l_c E <> f0 ->
+    (forall n fr f_max L s xi b, 1 <= n -> fr <> f0 -> @fz K (n - 1) <> f0 -> s <> f0 -> b <> f0 -> l_pi E <> f0 -> l_c E <> f0 ->
        ResistiveWall_ctor K E n fr f_max L s xi b = push_loop cpx0 n (sp_rw_sample E n fr f_max L s xi b)) /\
     (forall n f_max z, 0 <= n -> ConstImpedance_ctor K E n f_max z = const_vec cpx0 n z) /\
     (forall n f_max outer inner, 0 <= n -> inner <> f0 -> l_pi E <> f0 ->
        CollimatorImpedance_ctor K E n f_max outer inner = const_vec cpx0 n (sp_coll_Z E outer inner)) /\
-    (forall n, Impedance_zeros K E n = zero_vec cpx0 n).
+    (forall n, Impedance_zeros K E n = zero_vec cpx0 n) /\
+    (forall n fr f_max g, 0 <= n -> ParallelPlatesCSR_ctor K E n fr f_max g = pp_vec cpx0 n (l_PPs E n fr f_max g)).
 Proof.
-  exact (fun K E => conj (gen_fs_vec K E) (conj (gen_rw_vec K E) (conj (gen_const_vec K E) (conj (gen_coll_vec K E) (gen_zeros K E))))).
+  exact (fun K E => conj (gen_fs_vec K E) (conj (gen_rw_vec K E) (conj (gen_const_vec K E) (conj (gen_coll_vec K E)
+                      (conj (gen_zeros K E) (gen_pp_vec K E)))))).
 Qed.
 Print Assumptions C16_generated_models.
 
@@ -272,13 +277,13 @@ Print Assumptions C16_generated_sum.
     and use_csr; wall (n, frev, fmax, c/frev, s, xi, |gap/2|) iff gap <> 0, s > 0, xi >= -1;
     collimator (n, fmax, |gap/2|, r_coll) iff gap <> 0 and 0 < r_coll < |gap/2|; the file iff named *)
 Theorem C16_generated_factory :
-  forall (c Z0 : R) (PP : Z -> R -> R -> R -> list creal) n fmax R_bend frev gap use_csr s xi rc file,
+  forall (c Z0 : R) (PP : Z -> R -> R -> R -> Z -> creal) n fmax R_bend frev gap use_csr s xi rc file,
     0 <= n -> R_bend <> 0%R -> frev <> 0%R ->
     makeImpedance RF (ER c Z0 PP) n fmax R_bend frev gap use_csr s xi rc file =
     let E := ER c Z0 PP in
     if g_any_selected E gap use_csr s xi rc file
     then Some (pointwise_sum cr0 cr_add n
-                 (g_parts E (PP n (c / ((1 + 1) * PI * R_bend))%R fmax gap)
+                 (g_parts E (ParallelPlatesCSR_ctor RF E n (c / ((1 + 1) * PI * R_bend))%R fmax gap)
                           (FreeSpaceCSR_ctor RF E n (c / ((1 + 1) * PI * R_bend))%R fmax)
                           (ResistiveWall_ctor RF E n frev fmax (c / frev)%R s xi (Rabs (gap / (1 + 1))))
                           (CollimatorImpedance_ctor RF E n fmax (Rabs (gap / (1 + 1))) rc)
@@ -291,7 +296,7 @@ Print Assumptions C16_generated_factory.
     the correspondence runs in its Qc instance (extracted, [gen_factory_q]) with the
     implementation's own vectors *)
 Theorem C16_generated_factory_with :
-  forall (c Z0 : R) (PP : Z -> R -> R -> R -> list creal) PPc FSc RWc COLLc n fmax R_bend frev gap use_csr s xi rc file,
+  forall (c Z0 : R) (PP : Z -> R -> R -> R -> Z -> creal) PPc FSc RWc COLLc n fmax R_bend frev gap use_csr s xi rc file,
     0 <= n -> R_bend <> 0%R -> frev <> 0%R ->
     makeImpedance_with RF (ER c Z0 PP) PPc FSc RWc COLLc n fmax R_bend frev gap use_csr s xi rc file =
     sp_factory_with (ER c Z0 PP) PPc FSc RWc COLLc n fmax R_bend frev gap use_csr s xi rc file.
@@ -300,7 +305,7 @@ Print Assumptions C16_generated_factory_with.
 
 (** the switches of the specification mean what the property text says *)
 Theorem C16_switch_meaning :
-  forall (c Z0 : R) (PP : Z -> R -> R -> R -> list creal) gap use_csr s xi rc,
+  forall (c Z0 : R) (PP : Z -> R -> R -> R -> Z -> creal) gap use_csr s xi rc,
     let E := ER c Z0 PP in
     (g_sel_pp E gap use_csr = true <-> (0 < gap)%R /\ use_csr = true) /\
     (g_sel_fs E gap use_csr = true <-> (gap < 0)%R /\ use_csr = true) /\
@@ -329,7 +334,7 @@ Local Open Scope R_scope.
 (** 4f. real instance (pow := rpow, sqrt, ln, Rabs, PI, the order of R): the generated vectors
     ARE the analytic vectors of section 3, so the laws 3a-3c are laws of the generated code *)
 Theorem C16_generated_models_R :
-  forall (c Z0 : R) (PP : Z -> R -> R -> R -> list creal),
+  forall (c Z0 : R) (PP : Z -> R -> R -> R -> Z -> creal),
     (forall n f_rev f_max, (2 <= n)%Z -> f_rev <> 0 ->
        FreeSpaceCSR_ctor RF (ER c Z0 PP) n f_rev f_max = fs_vec n (f_max / f_rev / IZR (n - 1))) /\
     (forall n fr f_max L s xi b, (2 <= n)%Z -> fr <> 0 -> s <> 0 -> b <> 0 -> c <> 0 ->
@@ -346,9 +351,9 @@ Print Assumptions C16_generated_models_R.
     susceptibility, collimator radius, file and switches: every sample has Re >= 0, provided the
     parallel-plates model and the file are passive (explored / input) *)
 Theorem C16_generated_factory_passive :
-  forall (c Z0 : R) (PP : Z -> R -> R -> R -> list creal) n fmax R_bend frev gap use_csr s xi rc file v,
+  forall (c Z0 : R) (PP : Z -> R -> R -> R -> Z -> creal) n fmax R_bend frev gap use_csr s xi rc file v,
     (2 <= n)%Z -> 0 < c -> 0 < Z0 -> R_bend <> 0 -> 0 < frev ->
-    (forall a b g, Forall passive (PP n a b g)) ->
+    (forall a b g i, (1 <= i <= n / 2)%Z -> passive (PP n a b g i)) ->
     (forall d, file = Some d -> Forall passive d) ->
     makeImpedance RF (ER c Z0 PP) n fmax R_bend frev gap use_csr s xi rc file = Some v -> Forall passive v.
 Proof. exact gen_factory_passive. Qed.
